@@ -56,6 +56,8 @@ type Profile struct {
 	MixedActs    float64 // first attempts fail, later succeed
 	Garbage      float64 // probability that an op is garbage
 	GarbageReply float64
+	// DupReply: the upstream sends its reply three to six times back to back.
+	DupReply float64
 	// LateReply: the reply comes after the transports' 6 s I/O limit (it is
 	// then a reply nobody waits for any more, on a connection that must not
 	// be used again).
@@ -99,6 +101,7 @@ func ProfileFor(focus, arm string) Profile {
 	switch focus {
 	case "C01":
 		p.Garbage, p.GarbageReply, p.OddQueries = 0.5, 0.3, 0.1
+		p.DupReply = 0.15
 		p.NConns, p.OpsPerConn = [2]int{4, 10}, [2]int{1, 6}
 		p.Seg = true
 		p.SpanUs = 3_000_000
@@ -120,6 +123,7 @@ func ProfileFor(focus, arm string) Profile {
 		p.RichRules = true
 		if arm == "faults" {
 			p.FailActs, p.MixedActs, p.GarbageReply = 0.35, 0.15, 0.1
+			p.DupReply = 0.05
 			p.UpFaultNet = true
 		}
 		p.Rcodes = true
@@ -140,12 +144,13 @@ func ProfileFor(focus, arm string) Profile {
 			p.Cache = "off"
 		}
 	case "C09":
+		p.Shapes = []string{"plain", "mixed", "tight", "tight"}
 		p.BigAnswers = 0.7
 		p.EDNSProb = 0.7
 		p.OptInReply = 0.5
 		p.Listeners = []string{"udp", "udp", "tcp", "gnet", "https", "http"}
 	case "C15":
-		p.Listeners = []string{"udp", "udp", "tcp", "http", "gnet", "tls", "https"}
+		p.Listeners = []string{"udp", "udp", "tcp", "http", "gnet", "tls", "https", "quic", "gnet", "tcp"}
 		p.Cache = "off"
 		p.IpMarker, p.ECS = 0, 0.2
 	case "C17":
@@ -200,7 +205,7 @@ func ProfileFor(focus, arm string) Profile {
 	return p
 }
 
-var zones = []string{"example.com", "test.org", "a.b.c.net", "corp.internal", "x.example.com", "deep.sub.test.org", "xn--fiq.cn", "ex.ample.io"}
+var zones = []string{"example.com", "test.org", "a.b.c.net", "corp.internal", "x.example.com", "deep.sub.test.org", "xn--fiq.cn", "ex.ample.io", "quiz.zone", "az.biz"}
 
 // Generate makes the plan for (seed, focus, arm).
 func Generate(seed uint64, focus, arm string) *plan.Plan {
@@ -235,6 +240,10 @@ func generate(seed uint64, focus, arm string) *plan.Plan {
 				p.Knobs.YieldDensity = 0.2
 			}
 			return p
+		}
+	case "C02":
+		if arm == "codec" {
+			return genCodec(r, seed)
 		}
 	case "C05", "C06", "C14", "C16":
 		return genXport(r, seed, focus, arm)
@@ -516,6 +525,14 @@ func genRouter(r *rng, pr *Profile, focus, arm string) *plan.RouterPlan {
 				prev := rp.Ops[r.intn(len(rp.Ops))]
 				if prev.Raw == nil {
 					op.Token, op.Type, op.Class = prev.Token, prev.Type, prev.Class
+					if r.p(0.3) {
+						// same name, neighbouring type or another class: a different question
+						if r.p(0.6) {
+							op.Type = prev.Type ^ 1
+						} else {
+							op.Class = []uint16{3, 4, 1, 254}[r.intn(4)]
+						}
+					}
 					op.Labels = nil
 					for _, l := range prev.Labels {
 						op.Labels = append(op.Labels, mixCase(r, []byte(strings.ToLower(string(l)))))
@@ -634,6 +651,9 @@ func genToken(r *rng, pr *Profile, qtype uint16) *plan.TokenSpec {
 	if a.Shape == "late" {
 		a.PadTo = []int{17000, 20000, 40000}[r.intn(3)]
 	}
+	if a.Shape == "tight" {
+		a.PadTo = []int{520, 560, 700, 1000, 1300, 1500, 2500, 4300}[r.intn(8)]
+	}
 	if r.p(pr.OptInReply) {
 		o := &plan.UpOPT{Pos: r.intn(5), UDPSize: []uint16{512, 1232, 4096, 65535}[r.intn(4)]}
 		if r.p(0.5) {
@@ -665,6 +685,8 @@ func genToken(r *rng, pr *Profile, qtype uint16) *plan.TokenSpec {
 		if r.p(0.5) {
 			t.Acts[0].Arg = 2 + r.intn(1000) // the real answer cut short (see peers.UpServer)
 		}
+	case r.p(pr.DupReply):
+		t.Acts = []plan.UpAction{{Kind: "reply_many", DelayUs: d(), Arg: r.rng(3, 6)}}
 	case r.p(pr.LateReply):
 		t.Acts = []plan.UpAction{{Kind: "reply", DelayUs: r.i64(6_050_000, 7_500_000)}, {Kind: "reply", DelayUs: d()}}
 	default:
@@ -942,7 +964,7 @@ func specialize(r *rng, p *plan.Plan, focus, arm string) {
 					rp.Conns = append(rp.Conns, cc)
 					idx := len(rp.Ops)
 					tok := fmt.Sprintf("t%d", idx)
-					op := plan.ClientOp{Idx: idx, Conn: ci, AtUs: at + int64(si)*1000 + int64(k)*int64(r.rng(0, 200)), ID: uint16(0x7000 + phase*1024 + si*64 + k), Token: tok, NQ: 1, Class: 1, Type: 1, Bits: refdns.BitRD,
+					op := plan.ClientOp{Idx: idx, Conn: ci, AtUs: at + int64(si)*1000 + int64(k)*int64(r.rng(0, 200)), ID: uint16(0x7000 + phase*1024 + si*64 + k), Token: tok, NQ: 1, Class: 1, Type: 1, Bits: refdns.BitRD, Probe: true,
 						Labels: append([][]byte{[]byte(tok)}, labelsOf("example.com")...)}
 					if srv.Proto == "http" || srv.Proto == "fasthttp" || srv.Proto == "https" {
 						op.Method = "GET"
@@ -1179,6 +1201,8 @@ var oddLabels = [][]byte{
 	[]byte("a"), []byte("a\x00"), []byte("b"), []byte("ab"), []byte("x\x07y"), []byte("\xff\xfe"), []byte("w-w"), []byte("7"), []byte("\x07"),
 	[]byte("a\\b"), []byte("UP"), []byte("up"), []byte("abcdefghijklmnopqrstuvwx"), []byte("abcdefghijklmnopqrstuvwxy"), []byte("abcdefghijklmnopqrstuvwx\x00"),
 	[]byte("0"), []byte("-"), []byte("_srv"), []byte("a b"), []byte("caf\xc3\xa9"),
+	// the ends of the alphabet and their neighbours in ASCII (case folding), more octets below 100
+	[]byte("zz"), []byte("Zone"), []byte("quiz"), []byte("AZ"), []byte("az"), []byte("@a"), []byte("[b"), []byte("`c"), []byte("{d"), []byte("_dmarc"), []byte("*"), []byte("a/b"), []byte("\x01" + "23"),
 }
 
 // fileSafe reports whether a label can be written into a domain file entry.
@@ -1275,7 +1299,7 @@ func genC11(r *rng, p *plan.Plan) {
 			}
 		}
 		if r.p(0.25) {
-			lines = append(lines, "regexp:"+[]string{`^t[0-9]+\.www\.`, `\.7\.`, `\\007`, `^[^.]+\.a\\000\.`, `example\.com$`, `\\\\`}[r.intn(6)])
+			lines = append(lines, "regexp:"+[]string{`^t[0-9]+\.www\.`, `\.7\.`, `\\007`, `^[^.]+\.a\\000\.`, `example\.com$`, `\\\\`, `\\095srv`, `\\095dmarc\.`, `a\\032b`, `\.\\042\.`, `\\123`, `a\\047b`, `^[^.]+\.....\.`}[r.intn(13)])
 		}
 		if r.p(0.3) {
 			lines = append(lines, "", "# comment", "   ")
@@ -1354,13 +1378,28 @@ func genC15(r *rng, p *plan.Plan) {
 	heavy6 := []string{"2001:db8:a::5", "2001:db8:a:1::6"}
 	light4 := []string{"203.0.113.77", "100.64.1.1", "172.16.5.5"}
 	light6 := []string{"2001:db8:ffff::1", "2001:db8:b:12::9"}
+	// stream listeners: half of the time a client keeps using its connection
+	// (many queries behind one accept), otherwise one connection per query
+	lastConn := map[string]int{}
+	lastAt := map[string]int64{}
 	add := func(src string, at int64, si int) {
 		srv := rp.Servers[si]
 		ci := len(rp.Conns)
-		rp.Conns = append(rp.Conns, plan.ClientConn{Idx: ci, Server: si, Src: src, LingerUs: 8_000_000, HTTP2: srv.Proto == "https" && r.p(0.5)})
+		key := fmt.Sprintf("%s/%d", src, si)
+		stream := srv.Proto == "tcp" || srv.Proto == "tls" || srv.Proto == "gnet" || srv.Proto == "quic"
+		if prev, ok := lastConn[key]; ok && stream && r.p(0.7) && at-lastAt[key] < 4_000_000 && at >= lastAt[key] {
+			ci = prev
+			lastAt[key] = at
+		} else {
+			lastAt[key] = at
+			rp.Conns = append(rp.Conns, plan.ClientConn{Idx: ci, Server: si, Src: src, LingerUs: 8_000_000, HTTP2: srv.Proto == "https" && r.p(0.5)})
+			if stream && r.p(0.5) {
+				lastConn[key] = ci
+			}
+		}
 		idx := len(rp.Ops)
 		tok := fmt.Sprintf("t%d", idx)
-		op := plan.ClientOp{Idx: idx, Conn: ci, AtUs: at, ID: uint16(r.u64()), Token: tok, NQ: 1, Class: 1, Type: 1, Bits: refdns.BitRD, Labels: append([][]byte{[]byte(tok)}, labelsOf("example.com")...)}
+		op := plan.ClientOp{Idx: idx, Conn: ci, AtUs: at, ID: uint16(0x2000 + idx*13), Token: tok, NQ: 1, Class: 1, Type: 1, Bits: refdns.BitRD, Labels: append([][]byte{[]byte(tok)}, labelsOf("example.com")...)}
 		if srv.Proto == "http" || srv.Proto == "fasthttp" || srv.Proto == "https" {
 			op.Method = []string{"GET", "POST"}[r.intn(2)]
 		}
@@ -1440,5 +1479,33 @@ func genLateDial(r *rng, seed uint64) *plan.Plan {
 		k.StallMaxUs = 2000
 	}
 	p.Knobs = k
+	return p
+}
+
+// genCodec: a history of answers of every shape for the codec arm of C02.
+func genCodec(r *rng, seed uint64) *plan.Plan {
+	p := &plan.Plan{Version: 1, Seed: seed, Family: "codec", Focus: "C02", Arm: "codec"}
+	pr := ProfileFor("C02", "clean")
+	pr.OptInReply = 0.5
+	pr.BigAnswers = 0.15
+	cp := &plan.CodecPlan{Alive: []int{0, 1, 3, 8}[r.intn(4)]}
+	n := r.rng(20, 120)
+	for i := 0; i < n; i++ {
+		typ := []uint16{1, 28, 5, 15, 16, 33, 2, 12, 6, 255, 65, 250, 99}[r.intn(13)]
+		ts := genToken(r, &pr, typ)
+		tok := fmt.Sprintf("t%d", i)
+		ls := [][]byte{[]byte(tok)}
+		ls = append(ls, labelsOf(r.pick(zones))...)
+		for j := range ls {
+			ls[j] = mixCase(r, ls[j])
+		}
+		it := plan.CodecItem{Idx: i, Token: tok, Labels: ls, Type: typ, Class: []uint16{1, 1, 1, 3, 255}[r.intn(5)], Ans: ts.Ans}
+		if r.p(0.15) {
+			it.CutAt = 1 + r.intn(100000)
+		}
+		cp.Items = append(cp.Items, it)
+	}
+	p.Codec = cp
+	p.Knobs = plan.Knobs{GetFill: r.intn(3)}
 	return p
 }
